@@ -151,17 +151,23 @@ Definition obs_occupation (d n one : nat) (s : state) (i : nat) : R :=
 Definition pair_set (i j : nat) : list nat := if Nat.eqb i j then [i] else [i; j].
 Definition obs_correlation (d n one : nat) (s : state) (i j : nat) : R :=
   expect (d ^ n) (numop d n one (pair_set i j)) s.
-(** [EnergySecondMoment]: the code returns [sqrt] of the real part of this *)
-Definition obs_m2_sq (D : nat) (H : mat) (s : state) : R :=
-  let hs := apply_to D H s in overlap D hs hs.
-(** [EnergyVariance]: the code returns [sqrt (Re obs_m2_sq) - Re obs_var_sub] *)
-Definition obs_var_sub (D : nat) (H : mat) (s : state) : R :=
-  overlap D s (apply_to D H s).
+(** the identity as the observables build it:
+    [from_operator_repr(operations=[(1.0, [])])] *)
+Definition ident_op (d n : nat) : mat := from_repr d n [(r1, [])].
+(** [EnergySecondMoment]: [identity.expect(hamiltonian.apply_to(state))]
+    (the code then takes the real part) *)
+Definition obs_m2 (d n : nat) (H : mat) (s : state) : R :=
+  expect (d ^ n) (ident_op d n) (apply_to (d ^ n) H s).
+(** [EnergyVariance]: [second_moment - energy * energy] *)
+Definition obs_variance (rsub : R -> R -> R) (d n : nat) (H : mat) (s : state) : R :=
+  rsub (obs_m2 d n H s) (rmul (expect (d ^ n) H s) (expect (d ^ n) H s)).
 Definition obs_fidelity (D : nat) (target s : state) : R := overlap D target s.
 
 (** ** The definitions the property refers to *)
 Definition def_expect (D : nat) (A : mat) (rho : mat) : R := trace D (mmul D rho A).
 Definition def_m2 (D : nat) (H : mat) (rho : mat) : R := trace D (mmul D rho (mmul D H H)).
+Definition def_variance (rsub : R -> R -> R) (D : nat) (H : mat) (rho : mat) : R :=
+  rsub (def_m2 D H rho) (rmul (def_expect D H rho) (def_expect D H rho)).
 Definition def_occupation (d n one : nat) (rho : mat) (i : nat) : R :=
   sumn (d ^ n) (fun k => if Nat.eqb (digit d n i k) one then rho k k else r0).
 Definition def_correlation (d n one : nat) (rho : mat) (i j : nat) : R :=
